@@ -58,6 +58,24 @@ func c12Install(e *drv.Env) {
 		if n >= 3 {
 			e.Label("features>=3")
 		}
+		// a hot backup is a file this code writes, too: decode it independently (every 3rd commit/open)
+		if e.DB != nil && (e.Labels["commit"]+e.Labels["open"])%3 == 0 {
+			var w hookWriter
+			var size int64
+			var rid int
+			err := e.DB.View(func(tx *bolt.Tx) error {
+				size, rid = tx.Size(), tx.ID()
+				_, err := tx.WriteTo(&w)
+				return err
+			})
+			if err != nil {
+				return drv.Violf("%s: WriteTo: %v", when, err)
+			}
+			if v := c14CheckCopy(w.buf, int64(len(w.buf)), size, rid, e.Committed, when+": backup written by WriteTo"); v != nil {
+				return v
+			}
+			e.Label("backup-decoded")
+		}
 		return nil
 	}
 	e.AfterCommit = func(e *drv.Env, txid int) *drv.Violation { return oracle(e, "after commit") }
